@@ -101,6 +101,7 @@ def run_native(dh, prop, tier, seed, out_dir, budget_s, procs, proc_ms, families
     memcheck) stderr is kept and scanned for that tool's reports."""
     os.makedirs(out_dir, exist_ok=True)
     t_end = time.time() + budget_s
+    total0 = total
     running = {}
     results, k = [], 0
     inconclusive = []
@@ -139,6 +140,13 @@ def run_native(dh, prop, tier, seed, out_dir, budget_s, procs, proc_ms, families
             if os.path.exists(out):
                 try:
                     d = json.load(open(out)); results.append(d)
+                    # A process whose threads got wedged by a violation of ANOTHER property stopped before it had done its share of the
+                    # fixed work: another process (fresh seed) takes its place, so that a defect which shows in several ways does not
+                    # keep the check from reaching the executions in which it breaks THIS property (at most three times the planned
+                    # number of processes, within the same wall-clock limit). Never happens on a tree without violations.
+                    if total is not None and runs and d.get('exit_reason') in ('stuck', 'many_violations') and d.get('evaluations', 0) < runs \
+                            and not any(v['property'] == prop for v in d.get('violations', [])) and total < total0 * 3:
+                        total += 1
                     if os.environ.get('VERIF_STOP_ON_VIOLATION') and any(v['property'] == prop for v in d.get('violations', [])): t_end = time.time()
                 except Exception as e: inconclusive.append('process %d: unreadable output (%s)' % (idx, e))
             elif not tool and rc in (-11, -7, -4, -6, 139, 135, 132, 134):
